@@ -510,12 +510,34 @@ fn input_item(ts: TokenStream) -> String {
                     let content;
                     let _ = syn::braced!(content in input);
                     let body: TokenStream = content.parse()?;
+                    let fns = match (|input: ParseStream| -> syn::Result<Vec<syn::ImplItem>> {
+                        let mut v = vec![];
+                        while !input.is_empty() {
+                            v.push(input.parse()?);
+                        }
+                        Ok(v)
+                    })
+                    .parse2(body.clone())
+                    {
+                        Ok(items) => format!(
+                            "(some {})",
+                            list(
+                                "names",
+                                items.iter().filter_map(|i| match i {
+                                    syn::ImplItem::Fn(f) => Some(esc(&f.sig.ident.to_string())),
+                                    _ => None,
+                                })
+                            )
+                        ),
+                        Err(_) => "none".to_string(),
+                    };
                     Ok(format!(
-                        "{} {} {} {}",
+                        "{} {} {} {} {}",
                         toks_of(&path),
                         toks_of(&self_ty),
                         toks(body.clone()),
-                        sig_oracle(&body)
+                        sig_oracle(&body),
+                        fns
                     ))
                 };
                 match p.parse2(rest) {
@@ -533,11 +555,36 @@ fn input_item(ts: TokenStream) -> String {
                     let content;
                     let _ = syn::braced!(content in input);
                     let body: TokenStream = content.parse()?;
+                    // independent ground truth for C08: syn's own item parser on the module body
+                    let fns = match (|input: ParseStream| -> syn::Result<Vec<syn::Item>> {
+                        let mut v = vec![];
+                        while !input.is_empty() {
+                            v.push(input.parse()?);
+                        }
+                        Ok(v)
+                    })
+                    .parse2(body.clone())
+                    {
+                        Ok(items) => format!(
+                            "(some {})",
+                            list(
+                                "names",
+                                items.iter().filter_map(|i| match i {
+                                    syn::Item::Fn(f) if !matches!(f.vis, syn::Visibility::Inherited) => {
+                                        Some(esc(&f.sig.ident.to_string()))
+                                    }
+                                    _ => None,
+                                })
+                            )
+                        ),
+                        Err(_) => "none".to_string(),
+                    };
                     Ok(format!(
-                        "{} {} {}",
+                        "{} {} {} {}",
                         esc(&ident.to_string()),
                         toks(body.clone()),
-                        sig_oracle(&body)
+                        sig_oracle(&body),
+                        fns
                     ))
                 };
                 match p.parse2(rest) {
